@@ -541,6 +541,37 @@ func c01loneSurrogate(t []byte) bool {
 	return false
 }
 
+// an object somewhere in the (valid) text has two members with the same decoded key: outside the
+// property's domain; the library's sort is not stable beyond 12 members
+func c01dupKeys(t []byte) bool {
+	dup := false
+	var walk func(v gjson.Result)
+	walk = func(v gjson.Result) {
+		if dup {
+			return
+		}
+		if v.IsObject() {
+			seen := map[string]bool{}
+			v.ForEach(func(k, x gjson.Result) bool {
+				if seen[k.String()] {
+					dup = true
+					return false
+				}
+				seen[k.String()] = true
+				walk(x)
+				return true
+			})
+		} else if v.IsArray() {
+			v.ForEach(func(_, x gjson.Result) bool {
+				walk(x)
+				return true
+			})
+		}
+	}
+	walk(gjson.ParseBytes(t))
+	return dup
+}
+
 var c01versions = []string{"1", "2", "3", "4", "5", "6", "7", "8", "9", "10", "11", "12",
 	"org.matrix.msc3667", "org.matrix.msc3787", "org.matrix.msc4014", "org.matrix.hydra.11"}
 var c01unknownVersions = []string{"", "0", "13", "06", "6 ", "org.matrix.msc9999", "V6"}
@@ -669,6 +700,10 @@ func genC01(c *Ctx) {
 			c.Run("C01.valid", [][]byte{m}, "C01.valid", "", "malformed/validity")
 			if gjson.ValidBytes(m) && c01loneSurrogate(m) {
 				c.Count("malformed: still valid but lone surrogate (validity only)")
+				continue
+			}
+			if gjson.ValidBytes(m) && c01dupKeys(m) {
+				c.Count("malformed: still valid but duplicate keys (validity only)")
 				continue
 			}
 			out := c.Run("C01.canonical", [][]byte{m}, "C01.canonical", "C01.prop.same_value", "malformed")
